@@ -396,6 +396,9 @@ class Run(RunBase):
     def _op_sc_remove(self, op):
         kind, ids, form = op["kind"], op["ids"], op.get("form", "single")
         objs = [self._find(kind, i) for i in ids]
+        if op.get("as_copy"):
+            objs = [copy.deepcopy(o) for o in objs]  # equal objects, not the contained ones
+            self.probe("removed-by-an-equal-copy")
         arg = objs if form == "list" else objs[0]
         self._probe_removal(kind, ids)
         sc = self.sc
@@ -610,7 +613,7 @@ def _remover(rng, run, cfg):
         else:
             form = rng.choice(["single", "list"])
             n = 1 if form == "single" else rng.randint(1, min(3, len(ids)))
-            op = {"op": "sc_remove", "kind": kind, "ids": rng.sample(ids, n), "form": form}
+            op = {"op": "sc_remove", "kind": kind, "ids": rng.sample(ids, n), "form": form, "as_copy": rng.chance(0.2)}
             if kind == "lanelet":
                 op["ref"] = rng.chance(0.7)
             yield op
